@@ -455,6 +455,27 @@ func stackWaits(s *simrt.Sim) {
 		})
 	}
 	s.Quiesce()
+	// liveness at quiescence: a waiter whose condition holds now must have returned (PopOrWait: a non-empty stack)
+	size1 := st.Size()
+	for i, w := range ws {
+		if w.done {
+			continue
+		}
+		sat := false
+		switch w.kind {
+		case 0:
+			sat = size1 < 1
+		case 1:
+			sat = size1 < w.thr+1
+		case 2:
+			sat = size1 > w.thr
+		case 3:
+			sat = size1 > 0
+		}
+		if sat {
+			s.Fail("wait-liveness", fmt.Sprintf("stack-kind%d", w.kind), "waiter%d kind=%d thr=%d still blocked at quiescence although size=%d satisfies it", i, w.kind, w.thr, size1)
+		}
+	}
 	// release PopOrWait waiters that are legitimately blocked on an empty stack
 	stop = true
 	st.SignalShutdown()
